@@ -140,7 +140,12 @@ impl MetaStore {
         partition: PartitionID,
         column_name: &str,
     ) -> Option<String> {
-        self.partitions[table_name][&partition].subpartition_key(column_name)
+        // A partition that is registered with its table but not (yet, or any more) with the metastore
+        // has no files to load from.
+        self.partitions
+            .get(table_name)?
+            .get(&partition)?
+            .subpartition_key(column_name)
     }
 
     pub fn subpartition_has_been_loaded(
@@ -149,7 +154,12 @@ impl MetaStore {
         partition: PartitionID,
         column_name: &str,
     ) -> bool {
-        self.partitions[table_name][&partition].subpartition_has_been_loaded(column_name)
+        // Partitions unknown to the metastore (created by a flush that has not persisted them yet, or
+        // already replaced by a compaction) are fully resident: there is nothing to load.
+        match self.partitions.get(table_name).and_then(|p| p.get(&partition)) {
+            Some(partition) => partition.subpartition_has_been_loaded(column_name),
+            None => true,
+        }
     }
 
     pub fn mark_subpartition_as_loaded(
@@ -158,7 +168,9 @@ impl MetaStore {
         partition: PartitionID,
         column_name: &str,
     ) {
-        self.partitions[table_name][&partition].mark_subpartition_as_loaded(column_name);
+        if let Some(partition) = self.partitions.get(table_name).and_then(|p| p.get(&partition)) {
+            partition.mark_subpartition_as_loaded(column_name);
+        }
     }
 
     pub fn add_wal_segment(&mut self) -> u64 {
